@@ -26,13 +26,23 @@ func (m *collection) NotifyMerger(kind string, synchronous bool) error {
 		pongCh = make(chan struct{})
 	}
 
-	m.pingMergerCh <- ping{
+	// Do not block forever on a collection that is (being) closed: the
+	// merger may already have replied to its last pings and exited.
+	select {
+	case m.pingMergerCh <- ping{
 		kind:   kind,
 		pongCh: pongCh,
+	}:
+	case <-m.stopCh:
+		return ErrClosed
 	}
 
 	if pongCh != nil {
-		<-pongCh
+		select {
+		case <-pongCh:
+		case <-m.stopCh:
+			return ErrClosed
+		}
 	}
 
 	atomic.AddUint64(&m.stats.TotNotifyMergerEnd, 1)
